@@ -121,14 +121,15 @@ def run(chk, replay=None):
         raise MachineryError('Gen produced %d results, expected 1800' % len(cases))
 
     def realise(c, k):
-        stat = {'finite': [-12.75, 3, numpy.float64(0.125)][k % 3], 'posinf': math.inf, 'neginf': -numpy.inf, 'nan': float('nan'), 'none': None}[c['stat']]
-        quant = {'scalar': [0.25, numpy.float64(0.5)][k % 2], 'pair': (0.1, numpy.float64(0.95)), 'pair_none': (None, None), 'pair_invalid': (-1, -1)}[c['quant']]
-        dist = {'list': [1.5, numpy.float64(-2.25), -math.inf, 3], 'array': numpy.array([0.5, 1.0, float('nan')]), 'empty': [] if k % 2 else numpy.array([]),
+        # falsy-but-valid values (0, 0.0) are part of every numeric field class
+        stat = {'finite': [-12.75, 3, numpy.float64(0.125), 0.0, 0][k % 5], 'posinf': math.inf, 'neginf': -numpy.inf, 'nan': float('nan'), 'none': None}[c['stat']]
+        quant = {'scalar': [0.25, numpy.float64(0.5), 0.0][k % 3], 'pair': [(0.1, numpy.float64(0.95)), (0.0, 1.0)][k % 2], 'pair_none': (None, None), 'pair_invalid': (-1, -1)}[c['quant']]
+        dist = {'list': [[1.5, numpy.float64(-2.25), -math.inf, 3], [0.0, 0, 1.0]][k % 2], 'array': numpy.array([0.5, 1.0, float('nan')]), 'empty': [] if k % 2 else numpy.array([]),
                 'law': ('poisson', 12.5), 'word': 'normal'}[c['dist']]
         names = {'str': 'forecast-a', 'pair': ('forecast-a', 'forecast-b'), 'none': None}[c['names']]
         cls = getattr(models, c['cls'])
         return cls(test_distribution=dist, name='T-%d' % k, observed_statistic=stat, quantile=quant, status=['normal', 'not-valid', 'undersampled'][k % 3],
-                   sim_name=names, obs_name='obs', min_mw=[4.95, numpy.float64(5.95), None][k % 3], obs_catalog_repr='repr')
+                   sim_name=names, obs_name='obs', min_mw=[4.95, numpy.float64(5.95), None, 0.0, numpy.float64(0.0), -1][k % 6], obs_catalog_repr='repr')
 
     traces, metas = [], []
 
